@@ -424,7 +424,7 @@ func Mutate(r *rand.Rand, in string, other string) string {
 			continue
 		}
 		i := r.Intn(len(b))
-		switch r.Intn(10) {
+		switch r.Intn(11) {
 		case 0: // truncate
 			b = b[:i]
 		case 1: // delete a byte
@@ -450,6 +450,9 @@ func Mutate(r *rand.Rand, in string, other string) string {
 			} else {
 				b = append(b, w...)
 			}
+		case 10: // a run of invalid UTF-8 bytes (each becomes U+FFFD, three bytes for one, when a string is unquoted)
+			run := strings.Repeat("\xff", 3+r.Intn(6)) + []string{"", "0123456789abcdef"}[r.Intn(2)]
+			b = append(b[:i:i], append([]byte(run), b[i:]...)...)
 		case 9: // break an escape or literal
 			repl := []string{`\`, `\u12`, `\x`, "tru", "nul", "-", "1e", "01", ".5", `"`, `\'`, `\v`, `'`, `\0`}[r.Intn(14)]
 			b = append(b[:i:i], append([]byte(repl), b[i:]...)...)
